@@ -193,6 +193,31 @@ def run(tier, seed):
                                   'prefix': [m.block.serialize().hex() for m in tg.nodes], 'block': c['block'].serialize().hex(),
                                   'now': c['now'], 'period': 50, 'span': env.span})
             n = tg.extend(n, txs=[], fees=0)
+    # the limits apply to every block's content, also to a block that carries the header of a checkpointed block: a block id
+    # covers the header only, so the checkpointed id says nothing about the transactions that come with it
+    try:
+        from skepticoin.datatypes import Block as _Block
+        from skepticoin.humans import human as _human
+        with chaingen.Env(period=50) as env_:
+            tg_ = chaingen.TreeGen(env_, keys, ck.rng)
+            n_ = tg_.genesis
+            for _ in range(3):
+                n_ = tg_.extend(n_, txs=[], fees=0, dt=100)
+            pinned = n_
+        with chaingen.Env(period=50, hz=pinned.height, known={0: _human(tg_.genesis.id), pinned.height: _human(pinned.id)}):
+            for label_, cbv in (('reward of 2^64-1', 2 ** 64 - 1), ('reward of the whole supply', DOC_MAX), ('reward above the maximum', DOC_MAX + 1)):
+                fake = _Block(pinned.block.header, [chaingen.coinbase(pinned.height, cbv, keys.pks[0], b'pin')])
+                try:
+                    consensus.validate_block_by_itself(fake, pinned.view.time + 1)
+                    okp = True
+                except Exception:
+                    okp = False
+                ck.case(('pinned-header', label_), kind='checkpointed-header-with-other-content')
+                if okp:
+                    ck.violation('range-limit', 'a block carrying the header of a checkpointed block and a %s passes the stand-alone block '
+                                 'validation' % label_, {'kind': 'pinned-header', 'what': label_})
+    except Exception as e:
+        ck.disagree('checkpointed-header probe raised %r' % (e,), {})
     # the amount limit as transaction validation enforces it: a transaction whose only defect is an amount outside
     # (0, maximum] is refused EVERY time it is presented
     import gen
